@@ -158,7 +158,7 @@ def gen_history(seed, label, *, encrypted=None, max_users=3, nops=(3, 10), destr
     live = sorted(u for u in range(len(users)) if lrng.random() < 0.5) if lrng.random() < 0.4 else []
     return {
         'seed': seed, 'sched_seed': seed, 'settings': settings, 'users': users, 'contents': contents, 'ops': ops,
-        'decoys': dec, 'live': live,
+        'decoys': dec, 'live': live, 'shared_object': bool(live) and len(live) > 1 and lrng.random() < 0.5,
         'flavour': rng.choice(['sync', 'async']), 'lat_kind': rng.choice(['zero', 'uniform', 'heavy']),
         'lat': rng.choice([0.001, 0.02]), 'opts': world.SchedOpts.swarm(rng).as_dict(),
         'list_order': rng.choice(['sorted', 'shuffled']),
@@ -292,6 +292,7 @@ class History:
         self.stdouts = []       # (op, stdout) of init / add-key
         self.all_uploads = []   # (name, bytes) ever uploaded (C05 monitor)
         self.live_users = set(case.get('live') or ())
+        self.W.live_shared = bool(case.get('shared_object'))
 
     def flag(self, cls, msg, **sig):
         self.viol.append({'cls': cls, 'msg': f'[op {self.opi}] ' + msg, 'sig': sig})
@@ -374,6 +375,8 @@ class History:
         if u in self.live_users:
             if substream(self.case['sched_seed'], f'live-op{self.opi}').random() < 0.7:
                 self.probe('live_process_command')
+                if self.W.live_shared:
+                    self.probe('live_object_shared_by_users')
                 return True
             self.probe('live_user_other_process')
         return False
